@@ -15,7 +15,8 @@
 (***************************************************************************************)
 EXTENDS Naturals, Sequences, FiniteSets, TLC, Json, SequencesExt
 
-CONSTANTS MCPrec, Handles, MCBuild, EmitEdges
+CONSTANTS MCPrec, Handles, MCBuild, EmitEdges,
+          TestDefaultOn   \* include masa_test_default (it always terminates the process: one more walk per state)
 
 VARIABLES reg, sel, live, status, dflt, memo, act
 
@@ -105,6 +106,10 @@ Next ==
           \/ \E o \in {Fat, [end |-> "ret", tags |-> {"ERROR"}, ret |-> 1, n |-> 3]} : M!GetVec(p, "cxx", k, o)
     \/ M!DisplayParam(p, "cxx", DispPOutcome(p))
     \/ M!DisplayVec(p, "cxx", DispVOutcome(p))
+    \/ \E o \in Basic : M!TestPoly(p, "cxx", o)
+    \/ M!Version(p, "cxx", [end |-> "ret", tags |-> {}, ret |-> 5101, ret2 |-> 0], 5101)
+    \/ \E o \in {Fat, [end |-> "ret", tags |-> {}, ncb |-> 1]} : M!PassFunc(p, "cxx", o, TRUE)
+    \/ TestDefaultOn /\ \E v \in {"v1", "mk"}, e \in {"exit0", "exit1"} : M!TestDefault(p, "cxx", v, v = "mk", [end |-> e, tags |-> {}])
     \/ \E e \in Evals, x \in Points : \E o \in EvalOutcomes(p, e[1], e[2], <<x>>) : M!Eval(p, "cxx", e[1], e[2], <<x>>, <<>>, o)
 
 Spec == M!Init0 /\ [][Next]_vars
